@@ -83,6 +83,7 @@ def load_all():
     from . import models_h2  # noqa: F401
     from . import models_ws  # noqa: F401
     from . import models_h11  # noqa: F401
+    from . import models_cli  # noqa: F401
 
 
 load_all()
@@ -155,3 +156,41 @@ def _url_builtins(interp):
         return mk_str(f_urlunsplit(*[str_to_z3(p) for p in parts]), "str")
 
     return {urllib.parse.urlunsplit: urlunsplit}
+
+
+@builtin_hook
+def _misc_builtins(interp):
+    import wsgiref.handlers
+
+    import z3
+
+    from .sym import Str, SymStr
+
+    def format_date_time(a, k, fr):
+        # an RFC 7231 date string: opaque (well-formedness is the standard library's)
+        interp.ctx.assumptions_used.add("wsgiref.handlers.format_date_time returns a well-formed RFC 7231 date (uninterpreted)")
+        from .sym import s_ascii_ok
+
+        d = interp.ctx.fresh("http_date", Str)
+        interp.ctx.assume(s_ascii_ok(d))
+        return SymStr(d, "str")
+
+    return {wsgiref.handlers.format_date_time: format_date_time}
+
+
+@builtin_hook
+def _cli_builtins(interp):
+    import warnings
+
+    t = {warnings.warn: lambda a, k, fr: None}
+    try:
+        import hypercorn.run as hr
+
+        def run(a, k, fr):
+            interp.traces.setdefault("run", []).append(a[0])
+            return 0
+
+        t[hr.run] = run
+    except Exception:
+        pass
+    return t
